@@ -50,6 +50,27 @@ type retValErr struct{ s string }
 
 func (e retValErr) Error() string { return e.s }
 
+// errors whose concrete type has a kind the return-value table looks at for OTHER purposes (String, byte slice, Int) or
+// an unusual one (Func): behind the static type `error` / interface{} they are errors like any other.  The text is
+// deliberately NOT the plain conversion of the value.
+type retStrErr string // the `const ErrX = constError("…")` idiom, url.EscapeError, net.UnknownNetworkError …
+
+func (e retStrErr) Error() string { return string(e)[len("raw:"):] }
+
+type retBytesErr []byte
+
+func (e retBytesErr) Error() string { return string(e)[len("raw:"):] }
+
+type retIntErr int // syscall.Errno-like: the text comes from a table
+
+var retIntErrText []string
+
+func (e retIntErr) Error() string { return retIntErrText[int(e)] }
+
+type retFuncErr func() string
+
+func (e retFuncErr) Error() string { return e() }
+
 type (
 	retMyInt    int
 	retMyStr    string
@@ -180,6 +201,64 @@ var retShapes = map[string]retShapeDef{
 	}},
 }
 
+// ---- parameter lists.  `<P>.<base>`: the result list (and the values) of the shape <base>, the parameter list P:
+//     C (flamego.Context) | W (http.ResponseWriter, *http.Request) | Q (flamego.Context, *http.Request) | R (*http.Request)
+// The complete signature decides how the framework invokes the function (validateAndWrapHandler knows some signatures
+// and calls them through a FastInvoker, all others through reflect); the table must not care.  The function is made
+// with reflect.MakeFunc, its type is the plain unnamed func type.
+var retParamLists = map[string][]reflect.Type{
+	"C": {reflect.TypeOf((*flamego.Context)(nil)).Elem()},
+	"W": {reflect.TypeOf((*http.ResponseWriter)(nil)).Elem(), reflect.TypeOf((*http.Request)(nil))},
+	"Q": {reflect.TypeOf((*flamego.Context)(nil)).Elem(), reflect.TypeOf((*http.Request)(nil))},
+	"R": {reflect.TypeOf((*http.Request)(nil))},
+}
+
+var retParamOrder = []string{"C", "W", "Q", "R"}
+
+// the shapes that are plain `func() …` (a defined func type would lose its name by the lift)
+var retLiftable = []string{"v", "s", "b", "e", "is", "ib", "ie", "se", "be", "ps", "pb", "pps", "any", "iany", "n", "i64", "bool",
+	"ii", "i64s", "es", "ss", "si", "ise", "ips", "pse", "nis", "ce", "sce", "nb", "raw", "inb", "nbe", "anb"}
+
+// the rows of the table proper
+var retLiftCore = []string{"v", "s", "b", "e", "is", "ib", "ie", "se", "be", "any", "ce", "ps"}
+
+func retBaseOf(shape string) string {
+	if k := strings.IndexByte(shape, '.'); k >= 0 {
+		return shape[k+1:]
+	}
+	return shape
+}
+
+func retShapeOf(shape string) (retShapeDef, bool) {
+	k := strings.IndexByte(shape, '.')
+	if k < 0 {
+		def, ok := retShapes[shape]
+		return def, ok
+	}
+	params, ok1 := retParamLists[shape[:k]]
+	base, ok2 := retShapes[shape[k+1:]]
+	if !ok1 || !ok2 {
+		return retShapeDef{}, false
+	}
+	return retShapeDef{base.static, func(s *retSess) flamego.Handler {
+		bv := reflect.ValueOf(base.build(s))
+		bt := bv.Type()
+		outs := make([]reflect.Type, bt.NumOut())
+		for i := range outs {
+			outs[i] = bt.Out(i)
+		}
+		ft := reflect.FuncOf(params, outs, false)
+		return reflect.MakeFunc(ft, func([]reflect.Value) []reflect.Value { return bv.Call(nil) }).Interface()
+	}}, true
+}
+
+func retRandShape(r *rand.Rand) string {
+	if r.Intn(3) == 0 {
+		return retParamOrder[r.Intn(len(retParamOrder))] + "." + retLiftable[r.Intn(len(retLiftable))]
+	}
+	return retShapeOrder[r.Intn(len(retShapeOrder))]
+}
+
 // first token field each static type must carry (a generator bug shows as bad-op, never silently)
 var retStaticHead = map[string]string{"S": "s", "B": "b", "E": "a", "I": "i", "PS": "p", "PB": "p", "PPS": "p",
 	"A": "a", "O64": "o", "OB": "o", "CE": "e", "MI": "i", "MS": "s", "MB": "b"}
@@ -213,6 +292,15 @@ func retToGo(f []string, static string) interface{} {
 			return retStatusErr{msg, 403}
 		case "t":
 			return (*retPtrErr)(nil)
+		case "s":
+			return retStrErr("raw:" + msg)
+		case "y":
+			return retBytesErr("raw:" + msg)
+		case "i":
+			retIntErrText = append(retIntErrText, msg)
+			return retIntErr(len(retIntErrText) - 1)
+		case "f":
+			return retFuncErr(func() string { return msg })
 		}
 		panic("bad error kind")
 	case "ep":
@@ -314,7 +402,7 @@ func execRet(args []string, lines [][]string) []string {
 		panic("ret: want 5 session args")
 	}
 	method, pos, shape, custom, pre := args[0], args[1], args[2], args[3], args[4]
-	def, ok := retShapes[shape]
+	def, ok := retShapeOf(shape)
 	if !ok {
 		panic("ret: unknown shape")
 	}
@@ -454,7 +542,7 @@ var (
 	retCodes  = []int{200, 201, 204, 299, 301, 304, 400, 404, 418, 499, 500, 503, 599, 100, 101, 199, 600, 999}
 	retBad    = []int{0, -1, 99, 1000, -500, 65536}
 	retPos    = []string{"rt", "mw", "grp", "rta", "act"}
-	retErrK   = []string{"n", "w", "p", "v", "c", "c"}
+	retErrK   = []string{"n", "w", "p", "v", "c", "c", "s", "s", "y", "i", "f"}
 )
 
 func retBody(r *rand.Rand) string {
@@ -560,7 +648,8 @@ func retTok(r *rand.Rand, st string, bad bool) string {
 }
 
 func retEmitOp(emit Emit, shape string, toks []string) {
-	ph := retPlaceholder(toks, retShapes[shape].static)
+	def, _ := retShapeOf(shape)
+	ph := retPlaceholder(toks, def.static)
 	if len(toks) == 0 {
 		emit("R %s", ph)
 		return
@@ -576,7 +665,8 @@ func retSmall(st string) []string {
 	case "B", "MB":
 		return []string{"b:nil", "b:-", "b:" + hx("by")}
 	case "E":
-		return []string{"a:nil", "a:e:n:" + hx("boom"), "a:e:n:-", "a:e:p:" + hx("pe"), "a:e:v:" + hx("ve"), "a:e:t:" + hx("nil-receiver")}
+		return []string{"a:nil", "a:e:n:" + hx("boom"), "a:e:n:-", "a:e:p:" + hx("pe"), "a:e:v:" + hx("ve"), "a:e:t:" + hx("nil-receiver"),
+			"a:e:s:" + hx("se"), "a:e:y:" + hx("ye")}
 	case "I", "MI":
 		return []string{"i:200", "i:404", "i:204", "i:100", "i:599"}
 	case "PS":
@@ -586,7 +676,7 @@ func retSmall(st string) []string {
 	case "PPS":
 		return []string{"p:nil", "p:p:nil", "p:p:s:-", "p:p:s:" + hx("pp")}
 	case "A":
-		return []string{"a:nil", "a:s:-", "a:s:" + hx("as"), "a:b:nil", "a:b:-", "a:b:" + hx("ab"), "a:e:n:" + hx("ae"),
+		return []string{"a:nil", "a:s:-", "a:s:" + hx("as"), "a:b:nil", "a:b:-", "a:b:" + hx("ab"), "a:e:n:" + hx("ae"), "a:e:s:" + hx("ase"), "a:e:i:" + hx("aie"),
 			"a:i:0", "a:i:7", "a:p:s:" + hx("aps"), "a:o:0", "a:o:1"}
 	case "O64", "OB":
 		return []string{"o:0", "o:1"}
@@ -623,6 +713,37 @@ func genRet(r *rand.Rand, tier string, emit Emit) {
 					continue
 				}
 				emit("NEW ret %s %s %s - -", m, pos, shape)
+				for _, c := range combos {
+					retEmitOp(emit, shape, c)
+				}
+			}
+		}
+	}
+	// 1b. every parameter list × every row of the table proper × the same small value pools (positions cycling)
+	k := 0
+	for _, pl := range retParamOrder {
+		for _, base := range retLiftCore {
+			shape := pl + "." + base
+			st := retShapes[base].static
+			var combos [][]string
+			var rec func(i int, acc []string)
+			rec = func(i int, acc []string) {
+				if i == len(st) {
+					combos = append(combos, append([]string(nil), acc...))
+					return
+				}
+				for _, t := range retSmall(st[i]) {
+					rec(i+1, append(acc, t))
+				}
+			}
+			rec(0, nil)
+			for rep := 0; rep < 2; rep++ {
+				k++
+				m := "GET"
+				if k%5 == 0 {
+					m = "HEAD"
+				}
+				emit("NEW ret %s %s %s - -", m, retPos[k%len(retPos)], shape)
 				for _, c := range combos {
 					retEmitOp(emit, shape, c)
 				}
@@ -667,7 +788,7 @@ func genRet(r *rand.Rand, tier string, emit Emit) {
 	}
 	methods := []string{"GET", "GET", "POST", "HEAD"}
 	for i := 0; i < n; i++ {
-		shape := retShapeOrder[r.Intn(len(retShapeOrder))]
+		shape := retRandShape(r)
 		custom, pre := "-", "-"
 		if r.Intn(12) == 0 {
 			custom = []string{"app", "req", "both"}[r.Intn(3)] + ":" + strconv.Itoa([]int{0, 202, 299, 404}[r.Intn(4)]) + ":" + hx(retBody(r))
@@ -678,11 +799,11 @@ func genRet(r *rand.Rand, tier string, emit Emit) {
 			} else {
 				pre = "w:" + hx(retBody(r))
 			}
-		} else if r.Intn(8) == 0 && !map[string]bool{"v": true, "pb": true, "pps": true, "any": true, "i64": true, "bool": true, "ce": true}[shape] {
+		} else if r.Intn(8) == 0 && !map[string]bool{"v": true, "pb": true, "pps": true, "any": true, "i64": true, "bool": true, "ce": true}[retBaseOf(shape)] {
 			pre = "cx" // (only for shapes whose handler reads its values through the accessors that cancel)
 		}
 		emit("NEW ret %s %s %s %s %s", methods[r.Intn(len(methods))], retPos[r.Intn(len(retPos))], shape, custom, pre)
-		st := retShapes[shape].static
+		st := retShapes[retBaseOf(shape)].static
 		for k := 1 + r.Intn(4); k > 0; k-- {
 			toks := make([]string, len(st))
 			for j := range st {
@@ -769,7 +890,7 @@ func execRetSeq(args []string, lines [][]string) []string {
 					rh := retCustom(atoi(st[1]), unhx(st[2]))
 					h = func() { f.Map(rh) }
 				case st[0] == "r" && len(st) >= 3:
-					def, ok := retShapes[st[1]]
+					def, ok := retShapeOf(st[1])
 					toks := st[3:]
 					if !ok || len(toks) != len(def.static) {
 						good = false
@@ -863,8 +984,8 @@ func retSeqStep(r *rand.Rand) string {
 	case k < 7:
 		return fmt.Sprintf("ma %d %s", []int{0, 0, 203, 298}[r.Intn(4)], hx(retBody(r)))
 	}
-	shape := retShapeOrder[r.Intn(len(retShapeOrder))]
-	st := retShapes[shape].static
+	shape := retRandShape(r)
+	st := retShapes[retBaseOf(shape)].static
 	toks := make([]string, len(st))
 	quiet := r.Intn(10) < 7
 	for j := range st {
